@@ -146,6 +146,8 @@ def run(ctx):
     mn = P(fe.params()[0], tm.STR)
     words = T("m:split", (mn,), tm.LIST)
     bad = []
+    # an index into the word list lies in [0, 2047]: the list has exactly 2048 entries (checked on english.txt itself above)
+    ev.range_fn = lambda t: (0, 2047) if isinstance(t, T) and t.op in ("m:index", "idx", "lookup") and word_lookup(t) is not None else None
     for n in range(0, 31):
         ev.bind = {tm.length(words): n}
         s = ev.run(fe)
